@@ -10,5 +10,43 @@ SPEC = {
         {'pkg': 'execute', 'src': 'harness/execute/c11_test.go', 'test': 'TestVerif_C11_exec', 'fakes': True,
          'sinks': {'C11_exec': 'ce_judge'}, 'n': {'quick': 150, 'thorough': 6000}},
     ],
+    # Check/C11_check.ce_known: 1 = Roles.f18c_class, 2 = Roles.f18d_class
     'known': {'1': 'F18c', '2': 'F18d'},
+    'rule': 'VERIF_N worlds per plugin; a world = role assignment (4..7 oracles, destination, 2..3 sources, feed chain own / a source '
+            '/ the destination; shapes: full access, random subsets, group without destination, group without feed, an oracle with a '
+            'single source chain, an oracle with no chain) x scripted chain state (curses, enabled sources, RMN remote config set or unset, '
+            'selected ranges, tokens, fee components / native prices / fee updates partly missing, on-chain and pending commit reports, '
+            'readable messages 0..all, senders 0..2) x failing reader calls (none / 1..3 random (call kind, chain) pairs / every call on one '
+            'chain) x phase (3 commit states + retry query, 3 execute states, contracts not yet initialised). For every oracle i of the world '
+            'one real plugin (NewPlugin) over a real ccipChainReader whose contract readers and chain writers exist only for the chains of '
+            'i\'s role; Observation of i (panic / error / canonicalised observation) and ValidateObservation of every oracle j on it. '
+            'One case per (world, i). non-trivial = i does not read every chain and the observation carries data (or fails); distinct by full input',
+    'trusted': ['contract readers, chain writers and the price reader are scripted fakes below the real ccipChainReader (JSON-filled '
+                'return values); they answer only for chains of the oracle\'s role and fail exactly the scripted calls',
+                'the price reader fake mirrors the reader-existence guards of pkg/reader/price_reader.go',
+                'home chain answers are scripted (fake mirrors internal/reader/home_chain.go)',
+                'message hasher, report codec: repository mocks; token data observer: tokendata.NoopTokenDataObserver'],
+    'assumptions': ['an oracle has a contract reader and a chain writer exactly for the chains of its home-chain role',
+                    'all honest oracles hold the same home-chain view, so the verdict on (i, observation) does not depend on the validator j '
+                    '(the harness still runs every j)',
+                    'RMN disabled in the off-chain config; discovery processor enabled; observations below the size limit (no truncation)',
+                    'values stored on the chains are of the kind validation accepts from anybody (values_ok: positive fees and prices, '
+                    'RMN remote config absent or well-formed with at least F+1 signers, non-overlapping commit reports, fChain >= 1); '
+                    'an honest oracle reading e.g. a zero native-token price or an RMN remote config with fewer than F+1 signers has its '
+                    'whole observation rejected - outside the role question, not examined further',
+                    'a retry query (RetryRMNSignatures) is only sent in the BuildingReport phase (honest leader)'],
+    'level_text': 'Proof: Coq theorems over executable models of commit/execute Plugin.Observation (role behaviour of every processor incl. '
+                  'the reader-existence guards of pkg/reader/ccip.go, in the result monad) and Plugin.ValidateObservation: C11_commit - for all '
+                  'role assignments, oracles, reader states, failing-call patterns and phases the commit observation is produced without panic '
+                  'and accepted; C11_exec_valid / C11_exec_no_panic - whatever the execute plugin produces is accepted, never a panic; '
+                  'C11_exec_except_known - produced whenever all calls succeed, outside two recorded classes (F18c, F18d), which C11_exec_refuted '
+                  'exhibits; pre-repair functions refuted (F05, F18a, F18b). Correspondence: real plugins per oracle over role-limited readers, '
+                  'every i against every j, every run',
+    'level_note': 'Trusted: Coq kernel, hand-written model, differential harness with scripted contract readers. No axioms. '
+                  'Recorded classes F18c/F18d mask mutants that only change whether those observations fail.',
+    'modelled': 'commit.Plugin.Observation (discovery, merkleroot observer, tokenprice, chainfee processors), execute.Plugin.Observation '
+                '(getCommitReportsObservation, getMessagesObservation incl. readAllMessages and the costly-message observer, getFilterObservation), '
+                'ccipChainReader guards (DiscoverContracts, GetRmnCurseInfo, NextSeqNum, GetExpectedNextSequenceNumber, GetRMNRemoteConfig, '
+                'MsgsBetweenSeqNums, GetChainsFeeComponents, GetWrappedNativeTokenPriceUSD, GetChainFeePriceUpdate, CommitReportsGTETimestamp, '
+                'ExecutedMessageRanges, Nonces, LinkPriceUSD), both ValidateObservation functions',
 }
